@@ -149,9 +149,9 @@ func parseSegments(version string) ([]segment, error) {
 
 	// Add prerelease segments
 	if prereleasePart != "" {
-		// RubyGems reads "-" as ".pre."
+		// RubyGems reads every "-" as ".pre."
 		segments = append(segments, createSegment("pre"))
-		prereleaseParts := strings.Split(prereleasePart, ".")
+		prereleaseParts := strings.Split(strings.ReplaceAll(prereleasePart, "-", ".pre."), ".")
 		for _, part := range prereleaseParts {
 			if part != "" {
 				// Numbers in the prerelease part compare numerically (beta.2 < beta.10)
